@@ -1,839 +1,20 @@
 /-
-The functions of `src/register/quant.rs` translated by `tools/rs2lean2.py` on every run
-(`Qvnt.Generated.Regs`) are equal to the hand-written MODEL (`Qvnt.QReg`, `Model/Reg.lean`) the
-theorems of C05 / C06 / C07 / C14 are about. A change of one of those Rust functions that
-changes its meaning breaks the corresponding equality at build time.
+Umbrella: the equalities between the functions translated by `tools/rs2lean2.py` (`Qvnt.Generated.Regs`) and the
+hand-written MODEL live in one module per source file / subject, so that an equality that no longer holds blocks
+only the properties that rely on it:
+
+  GenQuant (register/quant.rs)   GenOps (operator/{single,multi}/mod.rs, QReg::apply)   GenBits (math/bits_iter.rs)
+  GenH (operator/multi/h.rs)     GenCtors (public constructors)                         GenQft (operator/multi/qft.rs)
+  GenSample (sample_all)         GenVirtl (register/virtl.rs, get_vreg)                 GenExtOp (qasm/int/ext_op.rs)
+  GenTwins (parallel arms are the rayon twins of the sequential ones)
 -/
-import Qvnt.Generated.Regs
-import Qvnt.Lemmas.GenCore
-import Qvnt.Lemmas.Queue
-
-set_option linter.unusedSectionVars false
-
-namespace Qvnt.Gen2
-open Qvnt Qvnt.Gen
-
-variable {R : Type}
-
-/-- the model's register as the translated record (buffer as a list) -/
-def ofModel (r : QReg R) : QRegG R := ⟨r.psi.toList, r.qNum, r.qMask⟩
-
-theorem shl_one (n : Nat) (h : n < 64) : shlW 64 1 n = 2 ^ n := by
-  unfold shlW
-  rw [Nat.one_mul, Nat.mod_eq_of_lt h, Nat.mod_eq_of_lt (Nat.pow_lt_pow_right (by decide) h)]
-
-theorem mask_eq (n : Nat) (h : n < 64) : wrapSub 64 (2 ^ n) 1 = 2 ^ n - 1 := by
-  unfold wrapSub
-  have h2 : 2 ^ n < 2 ^ 64 := Nat.pow_lt_pow_right (by decide) h
-  have h3 : 0 < 2 ^ n := Nat.two_pow_pos n
-  rw [Nat.mod_eq_of_lt h2]
-  have : (1 : Nat) % 2 ^ 64 = 1 := by decide
-  rw [this]
-  have e : 2 ^ n + 2 ^ 64 - 1 = (2 ^ n - 1) + 2 ^ 64 := by omega
-  rw [e, Nat.add_mod_right, Nat.mod_eq_of_lt (by omega)]
-
-section basic
-variable [Zero R] [One R]
-
-theorem basisBuf_toList (len s : Nat) :
-    (QReg.basisBuf (R := R) len s).toList = (List.replicate len (0 : Cx R)).set s 1 := by
-  apply List.ext_getElem
-  · simp [QReg.basisBuf]
-  · intro i h1 h2
-    simp [QReg.basisBuf, List.getElem_set]
-    by_cases h : s = i <;> simp [h, eq_comm]
-
-theorem quant_new_eq (n : Nat) (h : n < 64) : quant_new (R := R) n = ofModel (QReg.new n) := by
-  simp [quant_new, ofModel, QReg.new, shl_one n h, mask_eq n h, basisBuf_toList, minBufferLen]
-
-theorem quant_reset_eq (r : QReg R) (i : Nat) : quant_reset (ofModel r) i = ofModel (r.reset i) := by
-  simp [quant_reset, ofModel, QReg.reset, basisBuf_toList]
-
-theorem quant_with_state_eq (n st : Nat) (h : n < 64) :
-    quant_with_state (R := R) n st = some (ofModel (QReg.withState n st)) := by
-  have hlt : st &&& (2 ^ n - 1) < max (2 ^ n) 8 := by
-    have : st &&& (2 ^ n - 1) ≤ 2 ^ n - 1 := Nat.and_le_right
-    have h3 : 0 < 2 ^ n := Nat.two_pow_pos n
-    omega
-  simp [quant_with_state, ofModel, QReg.withState, shl_one n h, mask_eq n h, basisBuf_toList, minBufferLen]
-  omega
-
-omit [One R] in
-theorem resizeBuf_toList (a : Array (Cx R)) (len : Nat) :
-    (QReg.resizeBuf a len).toList = Rs.resize a.toList len 0 := by
-  apply List.ext_getElem
-  · simp [QReg.resizeBuf, Rs.resize]; omega
-  · intro i h1 h2
-    simp [QReg.resizeBuf] at h1
-    simp only [QReg.resizeBuf, Rs.resize, Array.getElem_toList, Array.getElem_ofFn]
-    by_cases hi : i < a.size
-    · rw [List.getElem_append_left (by simp; omega)]
-      simp [Array.getD, hi]
-    · rw [List.getElem_append_right (by simp; omega)]
-      simp [Array.getD, hi]
-
-theorem quant_set_num_eq (r : QReg R) (n : Nat) (h : n < 64) :
-    quant_set_num (ofModel r) n = ofModel (r.setNum n) := by
-  unfold quant_set_num QReg.setNum
-  by_cases hs : n < r.qNum
-  · simp [hs, ofModel, shl_one n h, mask_eq n h, minBufferLen, quant_reset, QReg.reset,
-      basisBuf_toList, Rs.resize]
-    congr 2
-    simp [QReg.resizeBuf]; omega
-  · simp [hs, ofModel, shl_one n h, mask_eq n h, resizeBuf_toList, minBufferLen]
-
-theorem mapIdx_getElem {α : Type} (l : List α) (f : Nat → α → α) (i : Nat) (h : i < (Rs.mapIdx l f).length) :
-    (Rs.mapIdx l f)[i] = f i (l[i]'(by simpa [Rs.mapIdx, Rs.enumerate] using h)) := by
-  simp [Rs.mapIdx, Rs.enumerate]
-
-omit [One R] in
-theorem quant_collapse_mask_eq (r : QReg R) (idy mask : Nat) :
-    quant_collapse_mask (ofModel r) idy mask = ofModel (r.collapseMask idy mask) := by
-  unfold quant_collapse_mask QReg.collapseMask ofModel
-  simp only [QRegG.mk.injEq, and_true]
-  apply List.ext_getElem
-  · simp [Rs.mapIdx, Rs.enumerate]
-  · intro i h1 h2
-    rw [mapIdx_getElem]
-    have hi : i < r.psi.size := by simpa [Rs.mapIdx, Rs.enumerate] using h1
-    simp [Array.getD]
-
-end basic
-
-section arith
-variable [Add R] [Sub R] [Mul R] [Div R] [Neg R] [Zero R] [One R] [Consts R]
-  [LE R] [DecidableLE R] [LT R] [DecidableLT R] [HasSqrt R] [RegConsts R]
-
-theorem quant_get_absolute_eq (r : QReg R) : quant_get_absolute (ofModel r) = r.getAbsolute := by
-  simp only [quant_get_absolute, QReg.getAbsolute, ofModel, Rs.sum, List.foldl_map, ← Array.foldl_toList]
-
-theorem quant_get_probabilities_eq (r : QReg R) (h : r.qNum < 64) (hs : 2 ^ r.qNum ≤ r.psi.size) :
-    quant_get_probabilities (ofModel r) = r.getProbabilities := by
-  have habs := quant_get_absolute_eq r
-  simp only [quant_get_absolute, ofModel] at habs
-  simp only [quant_get_probabilities, QReg.getProbabilities, ofModel, habs, shl_one _ h]
-  apply List.ext_getElem
-  · simp; omega
-  · intro i h1 h2
-    have hi : i < r.psi.size := by simp at h2; omega
-    simp [Array.getD, hi]
-
-theorem scale_toList (a : Array (Cx R)) (k : R) :
-    (a.map (fun v => v.scale k)).toList = List.map (fun v => Cx.scale v k) a.toList := by simp
-
-theorem quant_rescale_eq (r : QReg R) : quant_rescale (ofModel r) = ofModel r.rescale := by
-  have habs := quant_get_absolute_eq r
-  unfold quant_rescale QReg.rescale
-  simp only [habs]
-  by_cases h : (0 : R) < HasSqrt.sqrt r.getAbsolute
-  · simp [h, ofModel, GT.gt]
-  · simp [h, ofModel, GT.gt]
-
-theorem quant_normalize_eq (r : QReg R) : quant_normalize (ofModel r) = ofModel r.normalize := by
-  have habs := quant_get_absolute_eq r
-  unfold quant_normalize QReg.normalize
-  simp only [habs]
-  by_cases h1 : HasSqrt.sqrt r.getAbsolute ≤ (RegConsts.tiny : R)
-  · simp [h1, quant_reset_eq]
-  · by_cases h2 : (1 : R) - HasSqrt.sqrt r.getAbsolute ≤ RegConsts.close
-    · simp [h1, h2]
-    · simp [h1, h2, ofModel]
-
-theorem quant_tensor_prod_eq (a b : QReg R) (ha : a.qNum + b.qNum < 64) :
-    quant_tensor_prod (ofModel a) (ofModel b) = ofModel (a.tensorProd b) := by
-  have h8 : a.qNum % 2 ^ 8 = a.qNum := Nat.mod_eq_of_lt (by omega)
-  unfold quant_tensor_prod QReg.tensorProd ofModel
-  simp only [shl_one _ ha, mask_eq _ ha, h8, QRegG.mk.injEq, and_true, minBufferLen]
-  apply List.ext_getElem
-  · simp [Rs.range]
-  · intro i h1 h2
-    simp only [Rs.range, List.getElem_map, List.getElem_range', Array.getElem_toList, Array.getElem_ofFn,
-      Array.getD_eq_getD_getElem?, List.getD_eq_getElem?_getD, Array.getElem?_toList]
-    simp
-
-end arith
-
-/-! ### `SingleOp`, `MultiOp` (`operator/single/mod.rs`, `operator/multi/mod.rs`) -/
-section ops
-variable [CommRing R] [Consts R] [Div R] [LE R] [DecidableLE R] [LT R] [DecidableLT R] [HasSqrt R] [RegConsts R]
-
-theorem single_act_on_eq (g : SingleOp R) : single_act_on g = g.actOn := rfl
-theorem single_dgr_eq (g : SingleOp R) : single_dgr g = g.dgr := rfl
-
-theorem single_c_eq (g : SingleOp R) (c : Nat) : single_c g c = g.c c := by
-  unfold single_c SingleOp.c single_act_on SingleOp.actOn
-  by_cases h : (g.act ||| g.ctrl) &&& c = 0 <;> simp [h]
-
-/-- one sweep: the translated `SingleOp::apply` fills the output buffer with the model's `applyArr` -/
-theorem single_apply_eq (g : SingleOp R) (hc : g.ctrl < 2 ^ 64) (a : Array (Cx R)) (o : List (Cx R))
-    (ho : o.length = a.size) :
-    single_apply g a.toList o = (g.applyArr a).toList := by
-  unfold single_apply atomForEach SingleOp.applyArr
-  apply List.ext_getElem
-  · simp [Rs.mapIdx, Rs.enumerate, ho]
-  · intro i h1 h2
-    rw [mapIdx_getElem]
-    simp only [Array.getElem_toList, Array.getElem_ofFn]
-    have : (fun i => a.toList.getD i 0) = bufFn a := by
-      funext j; simp [bufFn, List.getD_eq_getElem?_getD, Array.getD_eq_getD_getElem?]
-    rw [this, forEach_eq g hc]
-
-theorem multi_act_on_eq (o : MultiOp R) : multi_act_on o = MultiOp.actOn o := rfl
-
-theorem multi_dgr_eq (o : MultiOp R) : multi_dgr o = MultiOp.dgr o := by
-  simp [multi_dgr, MultiOp.dgr, single_dgr_eq]
-
-theorem multi_mul_assign_eq (a b : MultiOp R) : multi_mul_assign a b = MultiOp.mul a b := rfl
-
-/-- `MultiOp::c`: the translated function never panics (the `unwrap` of every element succeeds whenever
-the product's own test passed) and returns what the model returns -/
-theorem multi_c_eq (o : MultiOp R) (cm : Nat) : multi_c o cm = some (MultiOp.c o cm) ∨
-    (MultiOp.c o cm = none ∧ MultiOp.actOn o &&& cm = 0) := by
-  unfold multi_c MultiOp.c
-  rw [multi_act_on_eq]
-  by_cases h : MultiOp.actOn o &&& cm = 0
-  · simp only [h, bne_self_eq_false, Bool.false_eq_true, ↓reduceIte, ne_eq, not_true_eq_false]
-    have hm : List.mapM (fun a1 => Option.bind (single_c a1 cm) fun u3 => some u3) o = List.mapM (fun g => g.c cm) o := by
-      congr 1; funext g; simp [single_c_eq]
-    rw [hm]
-    cases hc : List.mapM (fun g => SingleOp.c g cm) o with
-    | none => right; simp
-    | some l => left; simp
-  · left; simp [h]
-
-/-- `MultiOp::apply` with its buffer ping-pong: the translated function leaves in `psi_o` exactly what
-the model's `applyArr` computes, for every queue whose control masks are machine words -/
-theorem multi_apply_eq (o : MultiOp R) (hc : ∀ g ∈ o, g.ctrl < 2 ^ 64) (a : Array (Cx R)) (out : List (Cx R))
-    (ho : out.length = a.size) :
-    multi_apply o a.toList out = (MultiOp.applyArr o a).toList := by
-  unfold multi_apply MultiOp.applyArr
-  -- invariant of the fold: (psi_o, psi_i) = (scratch of the right length, current buffer)
-  suffices h : ∀ (l : MultiOp R) (hl : ∀ g ∈ l, g.ctrl < 2 ^ 64) (cur : Array (Cx R)) (scr : List (Cx R)),
-      scr.length = cur.size →
-      (List.foldl (fun (st : List (Cx R) × List (Cx R)) (g : SingleOp R) =>
-          (st.2, single_apply g st.2 st.1)) (scr, cur.toList) l).2 = (List.foldl (fun a g => g.applyArr a) cur l).toList by
-    have := h o hc a out ho
-    simpa using this
-  intro l
-  induction l with
-  | nil => intro _ cur scr _; simp
-  | cons g l ih =>
-    intro hl cur scr hs
-    simp only [List.foldl_cons]
-    rw [single_apply_eq g (hl g (by simp)) cur scr hs]
-    apply ih (fun g' hg' => hl g' (by simp [hg']))
-    simp [SingleOp.applyArr]
-
-end ops
-
-section apply
-variable [CommRing R] [Consts R] [Div R] [LE R] [DecidableLE R] [LT R] [DecidableLT R] [HasSqrt R] [RegConsts R]
-
-/-- `QReg::apply` (the sequential arm; the parallel arm is its twin): scratch buffer, one `MultiOp::apply`, swap -/
-theorem quant_apply_eq (r : QReg R) (o : MultiOp R) (hc : ∀ g ∈ o, g.ctrl < 2 ^ 64) :
-    quant_apply (ofModel r) o = ofModel (r.apply o) := by
-  unfold quant_apply QReg.apply
-  simp only [ofModel]
-  rw [multi_apply_eq o hc r.psi _ (by simp [Rs.resize])]
-
-theorem x_ctrl (v : Nat) : ∀ g ∈ (Op.x v : MultiOp R), g.ctrl < 2 ^ 64 := by
-  intro g hg
-  unfold Op.x MultiOp.ofSingle at hg
-  split at hg
-  · simp at hg
-  · simp at hg; subst hg; simp [SingleOp.ofAtom]
-
-end apply
-
-/-! ### `BitsIter::next` (`math/bits_iter.rs`) -/
-
-/-- the model's iterator state as the translated record -/
-def bitsOfModel (it : Qvnt.BitsIter) : BitsIterG := ⟨it.bits, it.pos⟩
-
-theorem bits_from_eq (m : Nat) : bits_from m = bitsOfModel (Qvnt.BitsIter.ofMask m) := rfl
-
-theorem shl_pos (p : Nat) (_h : p < 2 ^ 64) : shlW 64 p 1 = shl1 p := by
-  unfold shlW shl1 W; simp
-
-theorem bits_next_eq (fuel : Nat) (it : Qvnt.BitsIter) (h : it.pos < 2 ^ 64) :
-    bits_next fuel (bitsOfModel it) = (it.next fuel).map (fun r => (r.1, bitsOfModel r.2)) := by
-  unfold bits_next
-  induction fuel generalizing it with
-  | zero => simp [bits_next_loop1, Qvnt.BitsIter.next]
-  | succ n ih =>
-    unfold bits_next_loop1 Qvnt.BitsIter.next
-    simp only [bitsOfModel]
-    by_cases h1 : it.pos &&& it.bits = 0
-    · by_cases h2 : (decide (it.pos > it.bits) || it.pos == 0) = true
-      · simp [h1, h2]
-      · have h2' : ¬ (it.bits < it.pos ∨ it.pos = 0) := by simpa using h2
-        have := ih ⟨it.bits, shl1 it.pos⟩ (by unfold shl1 W; exact Nat.mod_lt _ (by decide))
-        simp [bitsOfModel] at this
-        simp [h1, h2', shl_pos _ h, this]
-    · simp [h1, shl_pos _ h]
-
-theorem bitsCollect_eq (fuel : Nat) (it : Qvnt.BitsIter) (h : it.pos < 2 ^ 64) :
-    bitsCollect fuel (bitsOfModel it) = it.collect fuel := by
-  induction fuel generalizing it with
-  | zero => simp [bitsCollect, Qvnt.BitsIter.collect]
-  | succ n ih =>
-    unfold bitsCollect Qvnt.BitsIter.collect
-    rw [bits_next_eq _ _ h]
-    cases hn : it.next (n + 1) with
-    | none => simp
-    | some r =>
-      obtain ⟨o, it'⟩ := r
-      cases o with
-      | none => simp
-      | some p =>
-        have hp : it'.pos < 2 ^ 64 := by
-          unfold Qvnt.BitsIter.next at hn
-          -- every successor state has `pos = shl1 _`
-          have key : ∀ (f : Nat) (i : Qvnt.BitsIter) q i', i.next f = some (some q, i') → i'.pos < 2 ^ 64 := by
-            intro f
-            induction f with
-            | zero => intro i q i' hh; simp [Qvnt.BitsIter.next] at hh
-            | succ f ihf =>
-              intro i q i' hh
-              unfold Qvnt.BitsIter.next at hh
-              split at hh
-              · simp at hh; rw [← hh.2]; unfold shl1 W; exact Nat.mod_lt _ (by decide)
-              · split at hh
-                · simp at hh
-                · exact ihf _ _ _ hh
-          exact key (n + 1) it p it' (by unfold Qvnt.BitsIter.next; exact hn)
-        simp [ih it' hp]
-        cases it'.collect n <;> simp
-
-theorem bitsList_eq (m : Nat) : bitsList m = bitsIterList m := by
-  unfold bitsList bitsIterList
-  rw [bits_from_eq, bitsCollect_eq _ _ (by simp [Qvnt.BitsIter.ofMask])]
-
-/-- the atom constructors used below (the same statements are proved for all atoms in `GenKernels`) -/
-theorem h1_new_eq' (a : Nat) : (Gen.h1_new a : Atom R) = .h1 a := rfl
-theorem h2_new_eq' (a b : Nat) : (Gen.h2_new a b : Atom R) = .h2 a b (a ||| b) := rfl
-theorem y_new_eq' (a : Nat) : (Gen.y_new a : Atom R) = .y a (yIPow a) := by
-  unfold Gen.y_new; simp only [yIPow_eq]
-
-/-! ### `multi::h::h` (`operator/multi/h.rs`) -/
-section hgate
-variable [Add R] [Sub R] [Mul R] [Div R] [Neg R] [Zero R] [One R] [Consts R]
-
-theorem single_from_eq (g : Atom R) : single_from g = SingleOp.ofAtom g := rfl
-
-theorem h_loop_eq (a fuel p f : Nat) (b : Bool) (acc : MultiOp R) (hp : p < 2 ^ 64) :
-    (h_h_loop1 a fuel ((p, f), b, acc)).map (fun s => (s.1.2, s.2.1, s.2.2)) = Op.hLoop a fuel p f b acc := by
-  induction fuel generalizing p f b acc with
-  | zero => simp [h_h_loop1, Op.hLoop]
-  | succ n ih =>
-    have hs : shl1 p < 2 ^ 64 := by unfold shl1 W; exact Nat.mod_lt _ (by decide)
-    unfold h_h_loop1 Op.hLoop
-    by_cases hc : (p != 0 && decide (p ≤ a)) = true
-    · by_cases hb : (p &&& a != 0) = true
-      · cases b
-        · simp [hc, hb, shl_pos p hp, ← ih _ _ _ _ hs, h_h2, single_from, h2_new_eq', SingleOp.ofAtom]
-        · simp [hc, hb, shl_pos p hp, ← ih _ _ _ _ hs]
-      · simp [hc, hb, shl_pos p hp, ← ih _ _ _ _ hs]
-    · simp [hc]
-
-theorem h_h_eq (a : Nat) : h_h (R := R) a = Op.h a := by
-  unfold h_h Op.h
-  cases hc : popcount a with
-  | zero => simp
-  | succ k =>
-    cases k with
-    | zero => simp [h_h1, single_from, h1_new_eq', SingleOp.ofAtom]
-    | succ k =>
-      simp only [beq_iff_eq, Nat.succ_ne_zero, ↓reduceIte, Nat.add_eq_right]
-      rw [← h_loop_eq a (W + 2) 1 0 true [] (by decide)]
-      cases h_h_loop1 (R := R) a (W + 2) ((1, 0), true, []) with
-      | none => simp
-      | some st => cases hb : st.2.1 <;> simp [hb, h_h1, single_from, h1_new_eq', SingleOp.ofAtom]
-
-end hgate
-
-/-! ### the public constructors (`operator/single/{pauli,rotate,swap}.rs`, `operator/mod.rs`) -/
-section ctors
-variable [Add R] [Sub R] [Mul R] [Div R] [Neg R] [Zero R] [One R] [Consts R] [Trig R] [Rs.AngleConsts R]
-
-theorem pauli_x_eq (a : Nat) : pauli_x (R := R) a = SingleOp.ofAtom (.x a) := rfl
-theorem pauli_y_eq (a : Nat) : pauli_y (R := R) a = SingleOp.ofAtom (.y a (yIPow a)) := by
-  simp [pauli_y, single_from, y_new_eq', SingleOp.ofAtom]
-theorem pauli_z_eq (a : Nat) : pauli_z (R := R) a = SingleOp.ofAtom (.z a) := rfl
-theorem pauli_s_eq (a : Nat) : pauli_s (R := R) a = SingleOp.ofAtom (.s a false) := rfl
-theorem pauli_t_eq (a : Nat) : pauli_t (R := R) a = SingleOp.ofAtom (.t a false) := rfl
-
-theorem checked_eq (g : Atom R) :
-    (if Atom.isValid g then some (single_from g) else none) = SingleOp.checked g := by
-  unfold SingleOp.checked single_from SingleOp.ofAtom
-  cases Atom.isValid g <;> rfl
-
-theorem rotate_rx_eq (a : Nat) (θ : R) : rotate_rx a θ = SingleOp.checked (.rx a (halfPhaseDiv θ)) := checked_eq _
-theorem rotate_ry_eq (a : Nat) (θ : R) : rotate_ry a θ = SingleOp.checked (.ry a (halfPhaseDiv θ)) := checked_eq _
-theorem rotate_rz_eq (a : Nat) (θ : R) : rotate_rz a θ = SingleOp.checked (.rz a (halfPhaseDiv θ)) := checked_eq _
-theorem rotate_rxx_eq (a : Nat) (θ : R) : rotate_rxx a θ = SingleOp.checked (.rxx a (halfPhaseMul θ)) := checked_eq _
-theorem rotate_ryy_eq (a : Nat) (θ : R) : rotate_ryy a θ = SingleOp.checked (.ryy a (halfPhaseDiv θ)) := checked_eq _
-theorem rotate_rzz_eq (a : Nat) (θ : R) : rotate_rzz a θ = SingleOp.checked (.rzz a (halfPhaseDiv θ)) := checked_eq _
-theorem swapmod_swap_eq (a : Nat) : swapmod_swap (R := R) a = SingleOp.checked (.swap a) := checked_eq _
-theorem swapmod_sqrt_swap_eq (a : Nat) : swapmod_sqrt_swap (R := R) a = SingleOp.checked (.sqrtSwap a false) := checked_eq _
-theorem swapmod_i_swap_eq (a : Nat) : swapmod_i_swap (R := R) a = SingleOp.checked (.iSwap a false) := checked_eq _
-theorem swapmod_sqrt_i_swap_eq (a : Nat) : swapmod_sqrt_i_swap (R := R) a = SingleOp.checked (.sqrtISwap a false) := checked_eq _
-
-theorem bind_some_map {α β : Type} (o : Option α) (f : α → β) : (o.bind fun u => some (f u)) = o.map f := by
-  cases o <;> rfl
-
-theorem op_id_eq : op_id (R := R) = Op.id := rfl
-theorem op_x_eq (a : Nat) : op_x (R := R) a = Op.x a := rfl
-theorem op_y_eq (a : Nat) : op_y (R := R) a = Op.y a := by simp [op_y, Op.y, pauli_y_eq]
-theorem op_z_eq (a : Nat) : op_z (R := R) a = Op.z a := rfl
-theorem op_s_eq (a : Nat) : op_s (R := R) a = Op.s a := rfl
-theorem op_t_eq (a : Nat) : op_t (R := R) a = Op.t a := rfl
-theorem op_rx_eq (θ : R) (a : Nat) : op_rx θ a = Op.rx (halfPhaseDiv θ) a := by
-  simp [op_rx, Op.rx, Op.ofChecked, rotate_rx_eq, bind_some_map]
-theorem op_ry_eq (θ : R) (a : Nat) : op_ry θ a = Op.ry (halfPhaseDiv θ) a := by
-  simp [op_ry, Op.ry, Op.ofChecked, rotate_ry_eq, bind_some_map]
-theorem op_rz_eq (θ : R) (a : Nat) : op_rz θ a = Op.rz (halfPhaseDiv θ) a := by
-  simp [op_rz, Op.rz, Op.ofChecked, rotate_rz_eq, bind_some_map]
-theorem op_rxx_eq (θ : R) (a : Nat) : op_rxx θ a = Op.rxx (halfPhaseMul θ) a := by
-  simp [op_rxx, Op.rxx, Op.ofChecked, rotate_rxx_eq, bind_some_map]
-theorem op_ryy_eq (θ : R) (a : Nat) : op_ryy θ a = Op.ryy (halfPhaseDiv θ) a := by
-  simp [op_ryy, Op.ryy, Op.ofChecked, rotate_ryy_eq, bind_some_map]
-theorem op_rzz_eq (θ : R) (a : Nat) : op_rzz θ a = Op.rzz (halfPhaseDiv θ) a := by
-  simp [op_rzz, Op.rzz, Op.ofChecked, rotate_rzz_eq, bind_some_map]
-theorem op_swap_eq (a : Nat) : op_swap (R := R) a = Op.swap a := by
-  simp [op_swap, Op.swap, Op.ofChecked, swapmod_swap_eq, bind_some_map]
-theorem op_sqrt_swap_eq (a : Nat) : op_sqrt_swap (R := R) a = Op.sqrtSwap a := by
-  simp [op_sqrt_swap, Op.sqrtSwap, Op.ofChecked, swapmod_sqrt_swap_eq, bind_some_map]
-theorem op_i_swap_eq (a : Nat) : op_i_swap (R := R) a = Op.iSwap a := by
-  simp [op_i_swap, Op.iSwap, Op.ofChecked, swapmod_i_swap_eq, bind_some_map]
-theorem op_sqrt_i_swap_eq (a : Nat) : op_sqrt_i_swap (R := R) a = Op.sqrtISwap a := by
-  simp [op_sqrt_i_swap, Op.sqrtISwap, Op.ofChecked, swapmod_sqrt_i_swap_eq, bind_some_map]
-theorem op_h_eq (a : Nat) : op_h (R := R) a = Op.h a := by
-  simp [op_h, h_h_eq]
-theorem op_u1_eq (lam : R) (a : Nat) : op_u1 lam a = Op.u1 (halfPhaseDiv lam) a := by
-  simp [op_u1, Op.u1, op_rz_eq]
-theorem op_u3_eq (the phi lam : R) (a : Nat) :
-    op_u3 the phi lam a = Op.u3 (halfPhaseDiv the) (halfPhaseDiv phi) (halfPhaseDiv lam) a := by
-  simp only [op_u3, Op.u3, op_rz_eq, op_ry_eq]
-  cases Op.rz (halfPhaseDiv lam) a <;> cases Op.ry (halfPhaseDiv the) a <;> cases Op.rz (halfPhaseDiv phi) a <;> rfl
-theorem op_u2_eq (phi lam : R) (a : Nat) :
-    op_u2 phi lam a = Op.u2 (halfPhaseDiv Rs.AngleConsts.fracPi2) (halfPhaseDiv phi) (halfPhaseDiv lam) a := by
-  simp only [op_u2, Op.u2, Op.u3, op_rz_eq, op_ry_eq]
-  cases Op.rz (halfPhaseDiv lam) a <;> cases Op.ry (halfPhaseDiv (Rs.AngleConsts.fracPi2 : R)) a <;> cases Op.rz (halfPhaseDiv phi) a <;> rfl
-
-end ctors
-
-/-! ### `multi::qft` (`operator/multi/qft.rs`) -/
-section qft
-variable [CommRing R] [Consts R] [Div R] [Trig R] [Rs.AngleConsts R]
-
-/-- the half-angle phases of `PI * 0.5^j`, as the translated constructor computes them -/
-def genPhase (j : Nat) : Cx R := halfPhaseDiv ((Rs.AngleConsts.pi : R) * Rs.powi Consts.half j)
-
-theorem single_c_eq' (g : SingleOp R) (c : Nat) : single_c g c = g.c c := by
-  unfold single_c SingleOp.c single_act_on SingleOp.actOn
-  by_cases h : (g.act ||| g.ctrl) &&& c = 0 <;> simp [h]
-
-theorem foldlM_append {α β : Type} (F : α → Option (List β)) (l : List α) (init : List β) :
-    List.foldlM (fun res i => Option.bind (F i) (fun x => some (res ++ x))) init l =
-      (l.mapM F).map (fun xs => init ++ xs.flatten) := by
-  induction l generalizing init with
-  | nil => simp
-  | cons a l ih =>
-    simp only [List.foldlM_cons, List.mapM_cons]
-    cases F a with
-    | none => simp
-    | some x =>
-      simp only [Option.bind_some, Option.bind_eq_bind, ih]
-      cases l.mapM F <;> simp
-
-theorem vec_eq (a : Nat) :
-    List.foldl (fun (vec : List Nat) idx => if (shlW 64 1 idx &&& a != 0) then vec ++ [shlW 64 1 idx] else vec) [] (Rs.range 0 64) =
-      Op.qftBits a := by
-  unfold Op.qftBits Rs.range W
-  have key : ∀ (l : List Nat) (acc : List Nat), (∀ i ∈ l, i < 64) →
-      List.foldl (fun (vec : List Nat) idx => if (shlW 64 1 idx &&& a != 0) then vec ++ [shlW 64 1 idx] else vec) acc l =
-        acc ++ l.filterMap (fun i => if (2 ^ i) &&& a != 0 then some (2 ^ i) else none) := by
-    intro l
-    induction l with
-    | nil => intro acc _; simp
-    | cons x xs ih =>
-      intro acc hx
-      have hx64 : x < 64 := hx x (by simp)
-      have hs : shlW 64 1 x = 2 ^ x := shl_one x hx64
-      simp only [List.foldl_cons, List.filterMap_cons, hs]
-      rw [ih _ (fun i hi => hx i (by simp [hi]))]
-      by_cases hb : (2 ^ x &&& a != 0) = true <;> simp [hb]
-  have := key (List.range' 0 (64 - 0)) [] (by intro i hi; simp at hi; omega)
-  simpa [List.range_eq_range'] using this
-
-theorem qft_qft_eq (a : Nat) : qft_qft (R := R) a = Op.qft genPhase a := by
-  unfold qft_qft Op.qft
-  cases hc : popcount a with
-  | zero => simp
-  | succ k =>
-    cases k with
-    | zero => simp [h_h_eq]
-    | succ k =>
-      simp only [beq_iff_eq, Nat.succ_ne_zero, ↓reduceIte, Nat.add_eq_right]
-      have hv := vec_eq a
-      -- the bit list
-      have hvec : (List.foldl (fun (st2 : List Nat) a3 =>
-          (if (shlW 64 1 a3 &&& a != 0) = true then st2 ++ [shlW 64 1 a3] else st2)) [] (Rs.range 0 64)) = Op.qftBits a := hv
-      simp only [hvec]
-      generalize Op.qftBits a = vec
-      -- one stage, as a function of i
-      have hstage : ∀ i : Nat,
-          (Option.bind (h_h (R := R) (vec.getD i 0)) fun u19 =>
-            Option.bind (List.mapM (fun j =>
-              Option.bind (Option.bind (rotate_rz (vec.getD (i + j) 0) ((Rs.AngleConsts.pi : R) * Rs.powi Consts.half j))
-                  fun op => single_c op (vec.getD i 0)) fun u25 =>
-                Option.bind (rotate_rz (vec.getD i 0) (Consts.half * ((Rs.AngleConsts.pi : R) * Rs.powi Consts.half j))) fun u26 =>
-                  some [u25, u26]) (Rs.range 1 (k + 1 + 1 - i))) fun u27 => some (u19 ++ List.flatten u27)) =
-          (do
-            let hi ← Op.h (R := R) (vec.getD i 0)
-            let rots ← (List.range (k + 1 + 1 - i - 1)).mapM (fun k' =>
-              match SingleOp.checked (Atom.rz (vec.getD (i + (k' + 1)) 0) (genPhase (R := R) (k' + 1))),
-                    SingleOp.checked (Atom.rz (vec.getD i 0) (genPhase (R := R) (k' + 1 + 1))) with
-              | some g, some g' => (g.c (vec.getD i 0)).map (fun cg => [cg, g'])
-              | _, _ => none)
-            pure (hi ++ rots.flatten)) := by
-        intro i
-        rw [h_h_eq]
-        have hr : Rs.range 1 (k + 1 + 1 - i) = (List.range (k + 1 + 1 - i - 1)).map (· + 1) := by
-          unfold Rs.range
-          apply List.ext_getElem
-          · simp
-          · intro n h1 h2
-            simp [Nat.add_comm]
-        rw [hr, List.mapM_map]
-        have hf : ∀ k' : Nat,
-            (Option.bind (Option.bind (rotate_rz (vec.getD (i + (k' + 1)) 0) ((Rs.AngleConsts.pi : R) * Rs.powi Consts.half (k' + 1)))
-                fun op => single_c op (vec.getD i 0)) fun u25 =>
-              Option.bind (rotate_rz (vec.getD i 0) (Consts.half * ((Rs.AngleConsts.pi : R) * Rs.powi Consts.half (k' + 1)))) fun u26 =>
-                some [u25, u26]) =
-            (match SingleOp.checked (Atom.rz (vec.getD (i + (k' + 1)) 0) (genPhase (R := R) (k' + 1))),
-                  SingleOp.checked (Atom.rz (vec.getD i 0) (genPhase (R := R) (k' + 1 + 1))) with
-              | some g, some g' => (g.c (vec.getD i 0)).map (fun cg => [cg, g'])
-              | _, _ => none) := by
-          intro k'
-          have hph : (Consts.half : R) * ((Rs.AngleConsts.pi : R) * Rs.powi Consts.half (k' + 1)) =
-              (Rs.AngleConsts.pi : R) * Rs.powi Consts.half (k' + 1 + 1) := by
-            simp only [Rs.powi]; ring
-          rw [rotate_rz_eq, rotate_rz_eq, hph]
-          simp only [genPhase]
-          generalize SingleOp.checked (Atom.rz (vec.getD (i + (k' + 1)) 0)
-              (halfPhaseDiv ((Rs.AngleConsts.pi : R) * Rs.powi Consts.half (k' + 1)))) = o1
-          generalize SingleOp.checked (Atom.rz (vec.getD i 0)
-              (halfPhaseDiv ((Rs.AngleConsts.pi : R) * Rs.powi Consts.half (k' + 1 + 1)))) = o2
-          cases o1 with
-          | none => cases o2 <;> rfl
-          | some g =>
-            cases o2 with
-            | none => simp only [Option.bind_some]; rw [single_c_eq']; cases g.c (vec.getD i 0) <;> rfl
-            | some g' => simp only [Option.bind_some]; rw [single_c_eq']; cases g.c (vec.getD i 0) <;> rfl
-        simp only [Function.comp_def, hf]
-        cases Op.h (R := R) (vec.getD i 0) <;> simp
-      -- assemble
-      have hloop := foldlM_append (fun i =>
-          (Option.bind (h_h (R := R) (vec.getD i 0)) fun u19 =>
-            Option.bind (List.mapM (fun j =>
-              Option.bind (Option.bind (rotate_rz (vec.getD (i + j) 0) ((Rs.AngleConsts.pi : R) * Rs.powi Consts.half j))
-                  fun op => single_c op (vec.getD i 0)) fun u25 =>
-                Option.bind (rotate_rz (vec.getD i 0) (Consts.half * ((Rs.AngleConsts.pi : R) * Rs.powi Consts.half j))) fun u26 =>
-                  some [u25, u26]) (Rs.range 1 (k + 1 + 1 - i))) fun u27 => some (u19 ++ List.flatten u27)))
-        (Rs.range 0 (k + 1 + 1 - 1)) []
-      have hbody : (fun (st17 : List (SingleOp R)) a18 =>
-            (h_h (R := R) (vec.getD a18 0)).bind fun a =>
-              (List.mapM (fun a20 =>
-                  ((rotate_rz (vec.getD (a18 + a20) 0) ((Rs.AngleConsts.pi : R) * Rs.powi Consts.half a20)).bind fun a =>
-                      single_c a (vec.getD a18 0)).bind fun a =>
-                    (rotate_rz (vec.getD a18 0) (Consts.half * ((Rs.AngleConsts.pi : R) * Rs.powi Consts.half a20))).bind
-                      fun a_1 => some [a, a_1]) (Rs.range 1 (k + 1 + 1 - a18))).bind
-                fun a_1 => some (st17 ++ a ++ a_1.flatten)) =
-          (fun res i =>
-            Option.bind ((Option.bind (h_h (R := R) (vec.getD i 0)) fun u19 =>
-              Option.bind (List.mapM (fun j =>
-                Option.bind (Option.bind (rotate_rz (vec.getD (i + j) 0) ((Rs.AngleConsts.pi : R) * Rs.powi Consts.half j))
-                    fun op => single_c op (vec.getD i 0)) fun u25 =>
-                  Option.bind (rotate_rz (vec.getD i 0) (Consts.half * ((Rs.AngleConsts.pi : R) * Rs.powi Consts.half j))) fun u26 =>
-                    some [u25, u26]) (Rs.range 1 (k + 1 + 1 - i))) fun u27 => some (u19 ++ List.flatten u27))) (fun x => some (res ++ x))) := by
-        funext res i
-        cases h_h (R := R) (vec.getD i 0) with
-        | none => rfl
-        | some u =>
-          simp only [Option.bind_some]
-          cases List.mapM (fun a20 =>
-                  ((rotate_rz (vec.getD (i + a20) 0) ((Rs.AngleConsts.pi : R) * Rs.powi Consts.half a20)).bind fun a =>
-                      single_c a (vec.getD i 0)).bind fun a =>
-                    (rotate_rz (vec.getD i 0) (Consts.half * ((Rs.AngleConsts.pi : R) * Rs.powi Consts.half a20))).bind
-                      fun a_1 => some [a, a_1]) (Rs.range 1 (k + 1 + 1 - i)) with
-          | none => rfl
-          | some v => simp [List.append_assoc]
-      rw [hbody, hloop]
-      have hr0 : Rs.range 0 (k + 1 + 1 - 1) = List.range (k + 1 + 1 - 1) := by
-        simp [Rs.range, List.range_eq_range']
-      rw [hr0]
-      simp only [hstage]
-      simp only [h_h_eq]
-      cases List.mapM (fun i => (do
-            let hi ← Op.h (R := R) (vec.getD i 0)
-            let rots ← (List.range (k + 1 + 1 - i - 1)).mapM (fun k' =>
-              match SingleOp.checked (Atom.rz (vec.getD (i + (k' + 1)) 0) (genPhase (R := R) (k' + 1))),
-                    SingleOp.checked (Atom.rz (vec.getD i 0) (genPhase (R := R) (k' + 1 + 1))) with
-              | some g, some g' => (g.c (vec.getD i 0)).map (fun cg => [cg, g'])
-              | _, _ => none)
-            pure (hi ++ rots.flatten))) (List.range (k + 1 + 1 - 1)) with
-      | none => rfl
-      | some st =>
-        simp only [Option.map_some, List.nil_append, Option.bind_some, Option.bind_eq_bind]
-        cases Op.h (R := R) (vec.getD (k + 1 + 1 - 1) 0) <;> rfl
-
-theorem swapped_loop_eq (a fuel pos : Nat) (acc : List Nat) (hp : pos < 2 ^ 64) :
-    (qft_qft_swapped_loop1 a fuel (acc, pos)).map (fun st => st.1) = Op.maskBitsLoop a fuel pos acc := by
-  induction fuel generalizing pos acc with
-  | zero => simp [qft_qft_swapped_loop1, Op.maskBitsLoop]
-  | succ n ih =>
-    have hs : shl1 pos < 2 ^ 64 := by unfold shl1 W; exact Nat.mod_lt _ (by decide)
-    unfold qft_qft_swapped_loop1 Op.maskBitsLoop
-    by_cases hc : (pos != 0 && decide (pos ≤ a)) = true
-    · by_cases hb : (pos &&& a != 0) = true
-      · simp [hc, hb, shl_pos pos hp, ← ih _ _ hs]
-      · simp [hc, hb, shl_pos pos hp, ← ih _ _ hs]
-    · simp [hc]
-
-theorem qft_qft_swapped_eq (a : Nat) : qft_qft_swapped (R := R) a = Op.qftSwapped genPhase a := by
-  unfold qft_qft_swapped Op.qftSwapped
-  rw [← swapped_loop_eq a (W + 2) 1 [] (by decide)]
-  dsimp only
-  generalize qft_qft_swapped_loop1 a (W + 2) ([], 1) = o
-  cases o with
-  | none => rfl
-  | some st =>
-    obtain ⟨vm, idx⟩ := st
-    simp only [Option.bind_some, Option.map_some, Option.bind_eq_bind]
-    have hbody : (fun (st6 : List (SingleOp R)) a7 =>
-          Option.bind (swapmod_swap (R := R) (vm.getD a7 0 ||| vm.getD (vm.length - a7 - 1) 0)) fun u8 =>
-            some (st6 ++ MultiOp.ofSingle u8)) =
-        (fun res i => Option.bind ((SingleOp.checked (Atom.swap (R := R) (vm.getD i 0 ||| vm.getD (vm.length - i - 1) 0))).map
-          MultiOp.ofSingle) (fun x => some (res ++ x))) := by
-      funext res i
-      rw [swapmod_swap_eq]
-      cases SingleOp.checked (Atom.swap (R := R) (vm.getD i 0 ||| vm.getD (vm.length - i - 1) 0)) <;> rfl
-    rw [hbody, foldlM_append]
-    have hr0 : Rs.range 0 (vm.length >>> 1) = List.range (vm.length / 2) := by
-      simp [Rs.range, List.range_eq_range', Nat.shiftRight_eq_div_pow]
-    rw [hr0, qft_qft_eq]
-    cases List.mapM (fun i => (SingleOp.checked (Atom.swap (R := R) (vm.getD i 0 ||| vm.getD (vm.length - i - 1) 0))).map
-        MultiOp.ofSingle) (List.range (vm.length / 2)) with
-    | none => rfl
-    | some sw =>
-      simp only [Option.map_some, List.nil_append, Option.bind_some]
-      cases Op.qft (R := R) genPhase a <;> rfl
-
-theorem op_qft_eq (a : Nat) : op_qft (R := R) a = Op.qft genPhase a := by
-  simp [op_qft, qft_qft_eq]
-theorem op_qft_swapped_eq (a : Nat) : op_qft_swapped (R := R) a = Op.qftSwapped genPhase a := by
-  simp [op_qft_swapped, qft_qft_swapped_eq]
-
-end qft
-
-/-! ### `sample_all` (`register/quant.rs`) -/
-section sample
-open Qvnt.QReg (HasRound)
-variable [Add R] [Sub R] [Mul R] [Div R] [Neg R] [Zero R] [One R] [Consts R]
-  [LE R] [DecidableLE R] [LT R] [DecidableLT R] [HasSqrt R] [RegConsts R] [HasRound R]
-
-/-- the surplus walk: one more unit of fuel than the model's (the translated loop tests its fuel first) -/
-theorem surplus_loop_eq (r : QRegG R) (fuel idx s : Nat) (n : List Nat) (hq : r.q_mask < n.length) :
-    (quant_sample_all_loop1 r (fuel + 1) (idx, n, s)).map (fun st => st.2.1) =
-      QReg.removeSurplus r.q_mask fuel idx s n := by
-  induction fuel generalizing idx s n with
-  | zero =>
-    cases s with
-    | zero => simp [quant_sample_all_loop1, QReg.removeSurplus]
-    | succ s' =>
-      unfold quant_sample_all_loop1 QReg.removeSurplus
-      by_cases h0 : n.getD (idx &&& r.q_mask) 0 = 0 <;> simp [h0, quant_sample_all_loop1]
-  | succ f ih =>
-    cases s with
-    | zero => simp [quant_sample_all_loop1, QReg.removeSurplus]
-    | succ s' =>
-      have hc : idx &&& r.q_mask < n.length := lt_of_le_of_lt Nat.and_le_right hq
-      unfold quant_sample_all_loop1 QReg.removeSurplus
-      have hget : n[idx &&& r.q_mask]? = some (n.getD (idx &&& r.q_mask) 0) := by
-        simp [List.getD_eq_getElem?_getD, List.getElem?_eq_getElem hc]
-      simp only [Nat.add_eq_zero_iff, one_ne_zero, and_false, beq_iff_eq, ↓reduceIte, hget]
-      cases hv : n.getD (idx &&& r.q_mask) 0 with
-      | zero => simp [ih (idx + 1) (s' + 1) n hq]
-      | succ v =>
-        have := ih (idx + 1) s' (n.set (idx &&& r.q_mask) v) (by simpa using hq)
-        simp [this]
-
-theorem updateSelected_eq_go (each extra : Nat) (n : List Nat) (p : List R) (k : Nat) :
-    Rs.updateSelectedAux (fun x => decide (x > 0)) (fun idx x => if idx < extra then x + each + 1 else x + each) n p k =
-      QReg.addDeficit.go each extra n (p.map fun x => decide (0 < x)) k := by
-  induction n generalizing p k with
-  | nil => cases p <;> simp [Rs.updateSelectedAux, QReg.addDeficit.go]
-  | cons x xs ih =>
-    cases p with
-    | nil => simp [Rs.updateSelectedAux, QReg.addDeficit.go]
-    | cons y ys =>
-      by_cases hy : (0 : R) < y
-      · simp only [Rs.updateSelectedAux, GT.gt, hy, decide_true, ↓reduceIte, List.map_cons, QReg.addDeficit.go, ih]
-        by_cases hk : k < extra <;> simp [hk, Nat.add_assoc]
-      · simp [Rs.updateSelectedAux, GT.gt, hy, QReg.addDeficit.go, ih]
-
-theorem rsSum_nat (l : List Nat) : Rs.sum l = l.sum := by
-  unfold Rs.sum
-  rw [List.sum_eq_foldl]
-
-/-- stage 1: the rounded Gaussian proposal, when there is a draw for every cell -/
-theorem proposal_eq (p g : List R) (count : Nat) (hg : p.length ≤ g.length) :
-    (let c : R := HasRound.ofNat count
-     let c_sqrt := HasSqrt.sqrt c
-     let n := List.map (fun a1 : R × R => HasSqrt.sqrt a1.1 * a1.2) (List.zip p g)
-     let n_sum := Rs.sum n
-     List.map (fun idx => Int.toNat (max (HasRound.roundInt ((c * p.getD idx 0) + (c_sqrt * (n.getD idx 0 - (n_sum * p.getD idx 0))))) (0 : Int)))
-       (Rs.range 0 p.length)) = QReg.sampleProposal p count g := by
-  unfold QReg.sampleProposal Rs.sum Rs.range
-  apply List.ext_getElem
-  · simp; omega
-  · intro i h1 h2
-    have hi : i < p.length := by simpa using h1
-    have hig : i < g.length := by omega
-    simp [List.getD_eq_getElem?_getD, hi, hig]
-
-/-- `sample_all` with the normal draws as an input list (one draw per cell at least), for every register whose
-mask and buffer fit its size: the translated function, given one more unit of fuel than the model's bound, is
-the model's `sampleAll` -/
-theorem quant_sample_all_eq (r : QReg R) (count : Nat) (g : List R) (hq : r.qNum < 64)
-    (hs : 2 ^ r.qNum ≤ r.psi.size) (hm : r.qMask < 2 ^ r.qNum) (hg : 2 ^ r.qNum ≤ g.length) :
-    quant_sample_all
-      (((QReg.sampleProposal r.getProbabilities count g).sum - count) *
-        ((QReg.sampleProposal r.getProbabilities count g).length + 1) +
-        (QReg.sampleProposal r.getProbabilities count g).length + 1 + 1) (ofModel r) count g =
-      r.sampleAll count g := by
-  have hp := quant_get_probabilities_eq r hq hs
-  have hpl : r.getProbabilities.length = 2 ^ r.qNum := by simp [QReg.getProbabilities]
-  have hprop := proposal_eq r.getProbabilities g count (by omega)
-  simp only at hprop
-  unfold quant_sample_all QReg.sampleAll QReg.sampleFix
-  simp only [hp, hprop]
-  generalize hn0 : QReg.sampleProposal r.getProbabilities count g = n0
-  have hn0l : n0.length = 2 ^ r.qNum := by
-    rw [← hn0]; unfold QReg.sampleProposal; simp [hpl]; omega
-  simp only [rsSum_nat]
-  by_cases hlt : n0.sum < count
-  · have h1 : ((Int.ofNat n0.sum - Int.ofNat count) < (0 : Int)) := by
-      simp only [Int.ofNat_eq_natCast]; omega
-    have hab : Int.natAbs (Int.ofNat n0.sum - Int.ofNat count) = count - n0.sum := by
-      simp only [Int.ofNat_eq_natCast]; omega
-    simp only [h1, decide_true, ↓reduceIte, hlt, hab, QReg.addDeficit, Rs.updateSelected]
-    have hsup : (List.filter (fun a4 : R => decide (a4 > 0)) r.getProbabilities).length =
-        (List.filter id (List.map (fun x => decide (0 < x)) r.getProbabilities)).length := by
-      rw [List.filter_map]; simp [Function.comp_def, GT.gt]
-    rw [hsup]
-    congr 1
-    rw [← updateSelected_eq_go]
-    congr 1
-    funext idx x
-    by_cases hk : idx < (count - n0.sum) % max (List.filter id (List.map (fun x => decide (0 < x)) r.getProbabilities)).length 1
-    · simp [hk]
-    · simp [hk]
-  · by_cases hgt : n0.sum > count
-    · have h1 : ¬ ((Int.ofNat n0.sum - Int.ofNat count) < (0 : Int)) := by
-        simp only [Int.ofNat_eq_natCast]; omega
-      have h2 : ((Int.ofNat n0.sum - Int.ofNat count) > (0 : Int)) := by
-        simp only [Int.ofNat_eq_natCast]; omega
-      have hcast : Int.toNat (Int.ofNat n0.sum - Int.ofNat count) = n0.sum - count := by
-        simp only [Int.ofNat_eq_natCast]; omega
-      simp only [h1, decide_false, Bool.false_eq_true, ↓reduceIte, h2, decide_true, hlt, hgt, hcast]
-      have := surplus_loop_eq (ofModel r) ((n0.sum - count) * (n0.length + 1) + n0.length + 1) 0 (n0.sum - count) n0
-        (by simp [ofModel, hn0l]; exact hm)
-      simp only [ofModel] at this ⊢
-      rw [← this]
-      cases quant_sample_all_loop1 (R := R) ⟨r.psi.toList, r.qNum, r.qMask⟩
-        ((n0.sum - count) * (n0.length + 1) + n0.length + 1 + 1) (0, n0, n0.sum - count) <;> simp
-    · have h1 : ¬ ((Int.ofNat n0.sum - Int.ofNat count) < (0 : Int)) := by
-        simp only [Int.ofNat_eq_natCast]; omega
-      have h2 : ¬ ((Int.ofNat n0.sum - Int.ofNat count) > (0 : Int)) := by
-        simp only [Int.ofNat_eq_natCast]; omega
-      simp [h1, h2, hlt, hgt]
-
-end sample
-
-/-! ### virtual registers (`register/virtl.rs`) -/
-
-def vregOfModel (v : VReg) : VRegG := ⟨v.bits⟩
-
-theorem vreg_new_with_mask_eq (m : Nat) : vreg_new_with_mask m = vregOfModel (VReg.ofMask m) := by
-  have := bitsList_eq m
-  unfold bitsList at this
-  simp [vreg_new_with_mask, vregOfModel, VReg.ofMask, this]
-
-theorem vreg_new_eq (n : Nat) : vreg_new n = vregOfModel (VReg.new n) := by
-  unfold vreg_new VReg.new CReg.maskOf W
-  rw [vreg_new_with_mask_eq]
-  by_cases h : n ≥ 64
-  · simp [h, Qvnt.notW]
-  · have hn : n < 64 := by omega
-    simp [h, shl_one n hn, mask_eq n hn]
-
-theorem vreg_index_eq (v : VReg) (i : Nat) : vreg_index (vregOfModel v) i = (v.idx i).getD 0 := by
-  simp [vreg_index, vregOfModel, VReg.idx, List.getD_eq_getElem?_getD]
-
-theorem foldl_filterMap' {α β γ : Type} (f : β → Option γ) (g : α → γ → α) (l : List β) (a : α) :
-    List.foldl g a (List.filterMap f l) = List.foldl (fun acc b => match f b with | some c => g acc c | none => acc) a l := by
-  induction l generalizing a with
-  | nil => rfl
-  | cons x xs ih =>
-    simp only [List.filterMap_cons, List.foldl_cons]
-    cases f x <;> simp [ih]
-
-theorem vreg_index_by_eq (v : VReg) (f : Nat → Bool) : vreg_index_by (vregOfModel v) f = v.idxBy f := by
-  unfold vreg_index_by VReg.idxBy vregOfModel Rs.enumerate
-  simp only [foldl_filterMap', List.foldl_map]
-  congr 1
-  funext acc p
-  cases f p.2 <;> simp
-
-theorem quant_get_vreg_eq (r : QReg R) : quant_get_vreg (ofModel r) = vregOfModel r.getVReg := by
-  simp [quant_get_vreg, QReg.getVReg, ofModel, vreg_new_with_mask_eq]
-
-/-! ### the interpreter's block queue (`qasm/int/ext_op.rs`) -/
-section extop
-variable [Add R] [Sub R] [Mul R] [Div R] [Neg R] [Zero R] [One R] [Consts R]
-
-theorem extop_push_eq (e : ExtOp R) (o : MultiOp R) : extop_push e o = e.push o := by
-  unfold extop_push ExtOp.push
-  by_cases h : e.tail.isEmpty
-  · simp only [h, ↓reduceIte]
-    cases hl : e.blocks.getLast? with
-    | none => simp
-    | some p =>
-      obtain ⟨l, sep⟩ := p
-      cases sep <;> simp
-  · simp [h]
-
-/-- `append`: the receiver becomes the model's `append`, the argument is left empty (`mem::take`) -/
-theorem extop_append_eq (e other : ExtOp R) :
-    (extop_append e other).1 = e.append other ∧ (extop_append e other).2 = { blocks := [], tail := [] } := by
-  unfold extop_append ExtOp.append
-  refine ⟨?_, rfl⟩
-  by_cases h : e.tail.isEmpty
-  · simp [h]
-  · simp only [h, Bool.not_false, ↓reduceIte, Bool.false_eq_true]
-    cases hl : e.blocks.getLast? with
-    | none => simp
-    | some p =>
-      obtain ⟨l, sep⟩ := p
-      cases sep <;> simp
-
-end extop
-
-/-- every `match` on the threading model in the translated functions has a parallel arm that is the
-sequential arm with rayon's adaptors (`par_iter`, `par_iter_mut`, `into_par_iter`, `apply_sync`) -/
-theorem parTwins_all : (parTwins.all (fun p => p.2)) = true := by decide
-
-end Qvnt.Gen2
+import Qvnt.Lemmas.GenQuant
+import Qvnt.Lemmas.GenOps
+import Qvnt.Lemmas.GenBits
+import Qvnt.Lemmas.GenH
+import Qvnt.Lemmas.GenCtors
+import Qvnt.Lemmas.GenQft
+import Qvnt.Lemmas.GenSample
+import Qvnt.Lemmas.GenVirtl
+import Qvnt.Lemmas.GenExtOp
+import Qvnt.Lemmas.GenTwins
